@@ -14,6 +14,8 @@ from .canon import canon, observation
 INF = float("inf")
 NWORKERS = int(os.environ.get("CIWMC_WORKERS", "0")) or min(16, os.cpu_count() or 1)
 CHUNK = 1200
+MAX_DEPTH = 90
+DEFAULT_CAP = 300000
 
 
 class Accounting(object):
@@ -213,7 +215,12 @@ def _work(task):
             res.Q = None
             # children: every alternative answer at every position after the replayed prefix
             lp = len(p)
-            for i in range(len(ch) - 1, lp - 1, -1):
+            top = len(ch)
+            if top > MAX_DEPTH:
+                # livelock guard: never branch beyond MAX_DEPTH choice points (reported, makes the run non-exhaustive)
+                out["depth_capped"] = out.get("depth_capped", 0) + 1
+                top = MAX_DEPTH
+            for i in range(top - 1, lp - 1, -1):
                 if dc[i] + 1 > D:
                     continue
                 base = ch[:i]
@@ -261,6 +268,8 @@ def explore(spec, cfgs, seed=0, account=True, log=None):
         queue = [(i, [()]) for i in order]
         queue.reverse()
         capped = set()
+        nviol_cfg = {}
+        tot["stopped_after_violation"] = []
         while queue or pending:
             while queue and (pool is None or pending < nw * 3):
                 task = queue.pop()
@@ -301,15 +310,23 @@ def explore(spec, cfgs, seed=0, account=True, log=None):
                     kk = tot["known"].setdefault(k, {"n": 0, "what": v["what"]})
                     kk["n"] += v["n"]
                 tot["maxdepth"] = max(tot["maxdepth"], r["maxdepth"])
+                tot["depth_capped"] = tot.get("depth_capped", 0) + r.get("depth_capped", 0)
                 tot["maxdev"] = max(tot["maxdev"], r["maxdev"])
                 for k in ("nontriv_n", "replayed", "validated", "ties", "unowned"):
                     tot[k] += r[k]
                 if len(tot["samples"]) < 6:
                     tot["samples"].extend(r["samples"])
                 left = r["left"]
+                if ci >= 0 and r["viol"]:
+                    nviol_cfg[ci] = nviol_cfg.get(ci, 0) + len(r["viol"])
                 if left and ci >= 0:
-                    cap = cfgs[ci].get("max_exec", 4000000)
-                    if tot["per_cfg"][ci] >= cap:
+                    cap = cfgs[ci].get("max_exec", DEFAULT_CAP)
+                    if nviol_cfg.get(ci, 0) >= 20:
+                        # a counter-example is enough: do not exhaust a tree that already violates
+                        if ci not in capped:
+                            capped.add(ci)
+                            tot["stopped_after_violation"].append(cfgs[ci].get("name"))
+                    elif tot["per_cfg"][ci] >= cap:
                         if ci not in capped:
                             capped.add(ci)
                             tot["capped"].append({"config": cfgs[ci].get("name"), "cap": cap})
